@@ -12,7 +12,9 @@ import (
 	"hpfscheck/internal/ssax"
 )
 
-func init() { register(&Spec{ID: "C07", Targets: []load.Target{load.Linux, load.Windows}, Run: runC07}) }
+func init() {
+	register(&Spec{ID: "C07", Targets: []load.Target{load.Linux, load.Windows}, Run: runC07})
+}
 
 // fsConfigFields: string fields of module types implementing io/fs.FS (receiver configuration such as a Sub root).
 type cfgField struct {
@@ -44,21 +46,25 @@ func fsConfigFields(p *load.Program) []cfgField {
 }
 
 func runC07(c *core.Ctx) {
-	c.Explain("Structural clauses of C07 decided from source: (R07.1) every path.Join that combines a Sub root kept in a file-system value (subFS.basePath, os.FS.root) with a name does so where the name is known to satisfy ValidPath — a valid name has no '..' element, so the joined path is lexically inside the root — and every value stored into such a root field is a constant, the old root, or derived from a name known valid at the store; (R07.2) confinement: the wrapped root file system of the generic Sub view is read only by its Mount method and constructor, and every file-system call the view makes uses the (FS, subPath) pair returned by one Mount call; (R07.3) the view translates errors with the (name, subPath) pair of that same call. NOT claimed: equality of effects and results between the view and the parent at dir/name; symbolic links of an OS-backed FS (excluded by the property).")
+	runFixtures(c, "valid", "route")
+	c.Explain("Structural clauses of C07 decided from source: (R07.1) every path.Join that combines a Sub root kept in a file-system value (subFS.basePath, os.FS.root) with a name does so where the name is known to satisfy ValidPath — a valid name has no '..' element, so the joined path is lexically inside the root — and every value stored into such a root field is a constant, the old root, or derived from a name known valid at the store; (R07.2) confinement: the wrapped root file system of the generic Sub view is read only by its Mount method and constructor, and every file-system call the view makes uses the (FS, subPath) pair returned by one Mount call; (R07.3) the view translates errors with the (name, subPath) pair of that same call; (R07.4) no function of the module (other than Mount implementations) returns a file system that derives from the file-system half of a Mount(dir) route resolution — the route of dir says nothing about the routes of names below dir, so a view built on it misses mounts below dir. NOT claimed: equality of effects and results between the view and the parent at dir/name; symbolic links of an OS-backed FS (excluded by the property).")
 	c.Assume("A2: path.Join(valid root, valid name) stays lexically inside root", "A1: the parent file system confines a valid sub-path")
 	c.RuleDoc("R07.1", "join-after-validate for Sub roots; root fields only receive validated values")
 	c.RuleDoc("R07.2", "generic Sub view reaches its parent only through Mount's (FS, subPath) pair")
 	c.RuleDoc("R07.3", "Sub view error translation uses the same pair")
+	c.RuleDoc("R07.4", "no file system handed out derives from a one-time route resolution Mount(dir)")
 	for _, p := range c.Progs {
 		c.SetProg(p)
 		va := newValidAnalysis(p)
 		va.solve()
 		r07Joins(c, p, va)
 		r07Confinement(c, p)
+		r07Routes(c, p, p.SrcFuncs(), "")
 	}
 	c.Floor("R07.1", 5)
 	c.Floor("R07.2", 2)
 	c.Floor("R07.3", 1)
+	c.Floor("R07.4", 8)
 }
 
 // joinArgs returns the elements of the variadic slice of a path.Join call.
@@ -326,5 +332,137 @@ func r07Confinement(c *core.Ctx, p *load.Program) {
 			c.Check(okT, "R07.3", k3, p.Pos(cl.Pos()), "error translated with (err, name, subPath) of the same Mount call",
 				fmt.Sprintf("%s: the error of %s is not passed through the translator with the name and sub-path of the same Mount call — callers would see paths of the parent's namespace", fname(fn), ssax.CallName(cl)))
 		})
+	}
+}
+
+// isMountSig: func(string) (FS, string)
+func isMountSig(sig *types.Signature, fsI *types.Interface) bool {
+	if sig == nil || sig.Params().Len() != 1 || sig.Results().Len() != 2 || !isStr(sig.Params().At(0).Type()) || !isStr(sig.Results().At(1).Type()) {
+		return false
+	}
+	return fsI != nil && types.Implements(sig.Results().At(0).Type(), fsI)
+}
+
+// routeResult: v is the file system half of a route resolution Mount(name).
+func routeResult(v ssa.Value, fsI *types.Interface) *ssa.Call {
+	ex, ok := v.(*ssa.Extract)
+	if !ok || ex.Index != 0 {
+		return nil
+	}
+	cl, ok := ex.Tuple.(*ssa.Call)
+	if !ok {
+		return nil
+	}
+	name := ""
+	var sig *types.Signature
+	if cl.Call.IsInvoke() {
+		name = cl.Call.Method.Name()
+		sig, _ = cl.Call.Method.Type().(*types.Signature)
+	} else if callee := ssax.StaticCallee(cl); callee != nil {
+		name = callee.Name()
+		sig = callee.Signature
+	}
+	if name == "Mount" && isMountSig(sig, fsI) {
+		return cl
+	}
+	return nil
+}
+
+// r07Routes (R07.4): a file system value handed out by a function never derives from the result of a one-time
+// route resolution Mount(dir): names below dir may route to other mounts, so a long-lived view must keep the
+// router. Route results may only be used for the single operation on the name they were resolved for.
+func r07Routes(c *core.Ctx, p *load.Program, fns []*ssa.Function, keyPrefix string) {
+	fsI := stdIface(p, "io/fs", "FS")
+	for _, fn := range fns {
+		if fn.Blocks == nil || fn.Synthetic != "" {
+			continue
+		}
+		if fn.Name() == "Mount" && isMountSig(fn.Signature, fsI) {
+			continue // a route implementation returns the mounted file system by definition
+		}
+		res := fn.Signature.Results()
+		var idx []int
+		for i := 0; i < res.Len(); i++ {
+			if fsI != nil && types.Implements(res.At(i).Type(), fsI) {
+				// File types also have Open? no: fs.FS requires Open(name string) (fs.File, error)
+				idx = append(idx, i)
+			}
+		}
+		if len(idx) == 0 {
+			continue
+		}
+		var found *ssa.Call
+		seen := map[ssa.Value]bool{}
+		var walk func(v ssa.Value, d int)
+		walk = func(v ssa.Value, d int) {
+			if v == nil || seen[v] || d > 12 || found != nil {
+				return
+			}
+			seen[v] = true
+			if rc := routeResult(v, fsI); rc != nil {
+				found = rc
+				return
+			}
+			switch x := v.(type) {
+			case *ssa.Call:
+				for _, a := range x.Call.Args {
+					walk(a, d+1)
+				}
+				if x.Call.IsInvoke() {
+					walk(x.Call.Value, d+1)
+				}
+			case *ssa.Extract:
+				walk(x.Tuple, d+1)
+			case *ssa.Phi:
+				for _, e := range x.Edges {
+					walk(e, d+1)
+				}
+			case *ssa.MakeInterface:
+				walk(x.X, d+1)
+			case *ssa.ChangeInterface:
+				walk(x.X, d+1)
+			case *ssa.ChangeType:
+				walk(x.X, d+1)
+			case *ssa.TypeAssert:
+				walk(x.X, d+1)
+			case *ssa.UnOp:
+				walk(x.X, d+1)
+			case *ssa.FieldAddr:
+				walk(x.X, d+1)
+			case *ssa.Alloc:
+				// values stored into the allocated object's fields
+				if x.Referrers() != nil {
+					for _, r := range *x.Referrers() {
+						switch y := r.(type) {
+						case *ssa.FieldAddr:
+							if y.Referrers() != nil {
+								for _, rr := range *y.Referrers() {
+									if st, ok := rr.(*ssa.Store); ok && st.Addr == ssa.Value(y) {
+										walk(st.Val, d+1)
+									}
+								}
+							}
+						case *ssa.Store:
+							if y.Addr == ssa.Value(x) {
+								walk(y.Val, d+1)
+							}
+						}
+					}
+				}
+			}
+		}
+		for _, r := range ssax.Returns(fn) {
+			for _, i := range idx {
+				if i < len(r.Results) {
+					walk(r.Results[i], 0)
+				}
+			}
+		}
+		key := keyPrefix + fname(fn) + "|fs-result"
+		if found != nil {
+			c.Bad("R07.4", key, p.Pos(found.Pos()), fmt.Sprintf("%s hands out a file system derived from the one-time route resolution %s: names below that path which route to another mount are not seen through the returned view (a Sub of a mount composition above a mount point shows the underlying directory instead of the mount)", fname(fn), ssax.CallName(found)))
+		} else {
+			c.OK("R07.4", key, p.Pos(fn.Pos()), "returned file system does not derive from a route resolution")
+		}
 	}
 }
